@@ -280,10 +280,11 @@ static void run_c03() {
         }
     }
     // set composition: members of a set in every order - singles, ranges, adjacent ranges, overlapping ranges, a single inside an earlier range, hex-escaped ends;
-    // all ordered selections of up to 4 of 8 components, plain and inverted
+    // all ordered selections of up to 4 of 12 components, plain and inverted
     {
         struct Comp { const char* text; int lo, hi; };
-        static const Comp comps[] = {{"a", 'a', 'a'}, {"c-e", 'c', 'e'}, {"e-g", 'e', 'g'}, {"b", 'b', 'b'}, {"f", 'f', 'f'}, {"h-j", 'h', 'j'}, {"\\x41-\\x43", 0x41, 0x43}, {"z", 'z', 'z'}};
+        static const Comp comps[] = {{"a", 'a', 'a'}, {"c-e", 'c', 'e'}, {"e-g", 'e', 'g'}, {"b", 'b', 'b'}, {"f", 'f', 'f'}, {"h-j", 'h', 'j'}, {"\\x41-\\x43", 0x41, 0x43}, {"z", 'z', 'z'},
+                                     {"c", 'c', 'c'}, {"e", 'e', 'e'}, {"d", 'd', 'd'}, {"a-g", 'a', 'g'}};   // singles that are end points / interior points of the ranges, a range covering others
         std::vector<int> pick;
         std::function<void()> rec = [&]() {
             if (!pick.empty()) {
@@ -295,7 +296,7 @@ static void run_c03() {
                 }
             }
             if (pick.size() == 4) return;
-            for (int k = 0; k < 8; ++k) { if (std::find(pick.begin(), pick.end(), k) != pick.end()) continue; pick.push_back(k); rec(); pick.pop_back(); }
+            for (int k = 0; k < 12; ++k) { if (std::find(pick.begin(), pick.end(), k) != pick.end()) continue; pick.push_back(k); rec(); pick.pop_back(); }
         };
         rec();
     }
